@@ -25,6 +25,9 @@ tvars == <<vars, l, hq, hstart, qfSeen, endSeen, hfail, downed, cnt, bad>>
 
 Ev == Trace[l]
 Is(e) == l <= Len(Trace) /\ Trace[l].ev = e
+\* an event that names a node is about a node of this call's configuration
+\* (anything else - e.g. a reply of another call's node - matches no action)
+IsN(e) == Is(e) /\ Trace[l].node \in 1..sc.n
 Step == l' = l + 1
 
 \* reply set logged by the harness QF: sequence of <<key, repNode, repCall, serial, val>>
@@ -62,12 +65,12 @@ TCallStart ==
   /\ (sc.kind \in OneWayKinds) => (Ev.nosendwait = sc.nsw)
   /\ Start
 
-TCallSkip == Is("CallSkip") /\ Step /\ Same /\ nxt = Ev.node /\ SkipNode
+TCallSkip == IsN("CallSkip") /\ Step /\ Same /\ nxt = Ev.node /\ SkipNode
 
 \* the request is about to enter the node's send queue (start of enqueue)
-TEnqBegin == Is("HandOffWait") /\ Step /\ Same /\ nxt = Ev.node /\ EnqueueNode
+TEnqBegin == IsN("HandOffWait") /\ Step /\ Same /\ nxt = Ev.node /\ EnqueueNode
 
-TCallEnq == Is("CallEnq") /\ Step /\ Same /\ Ev.node \in sent /\ UNCHANGED vars
+TCallEnq == IsN("CallEnq") /\ Step /\ Same /\ Ev.node \in sent /\ UNCHANGED vars
 
 TCallIssued ==
   /\ Is("CallIssued") /\ Step /\ Same
@@ -78,29 +81,29 @@ TCallIssued ==
 \* node, with exactly the payload the per-node function produced for it
 TagFor(n) == IF sc.pn[n] = "own" THEN n ELSE 0
 THStart ==
-  /\ Is("HStart") /\ Step /\ UNCHANGED <<vars, hq, qfSeen, endSeen, hfail, downed, cnt, bad>>
+  /\ IsN("HStart") /\ Step /\ UNCHANGED <<vars, hq, qfSeen, endSeen, hfail, downed, cnt, bad>>
   /\ Ev.node \in sent /\ Ev.node \notin DOMAIN hstart
   /\ Ev.tag = TagFor(Ev.node) /\ Ev.method = sc.method
   /\ hstart' = (Ev.node :> Ev.serial) @@ hstart
 
 THReply ==
-  /\ Is("HReply") /\ Step /\ UNCHANGED <<vars, hstart, qfSeen, endSeen, hfail, downed, cnt, bad>>
+  /\ IsN("HReply") /\ Step /\ UNCHANGED <<vars, hstart, qfSeen, endSeen, hfail, downed, cnt, bad>>
   /\ Ev.node \in DOMAIN hstart
   /\ hq' = [hq EXCEPT ![Ev.node] = Append(@, [err |-> FALSE, val |-> Ev.val])]
 
 THFail ==
-  /\ Is("HFail") /\ Step /\ UNCHANGED <<vars, hstart, qfSeen, endSeen, downed, cnt, bad>>
+  /\ IsN("HFail") /\ Step /\ UNCHANGED <<vars, hstart, qfSeen, endSeen, downed, cnt, bad>>
   /\ hfail' = (Ev.node :> Ev.code) @@ hfail
   /\ Ev.node \in DOMAIN hstart
   /\ hq' = [hq EXCEPT ![Ev.node] = Append(@, [err |-> TRUE, val |-> 0])]
 
 THEnd ==
-  /\ Is("HEnd") /\ Step /\ Same /\ Ev.node \in DOMAIN hstart
+  /\ IsN("HEnd") /\ Step /\ Same /\ Ev.node \in DOMAIN hstart
   /\ IF Stream THEN StreamEnd(Ev.node) ELSE UNCHANGED vars
 
 \* a response is handed to the call's reply channel (under the router mutex)
 TRoute ==
-  /\ Is("Route") /\ Step /\ UNCHANGED <<hstart, qfSeen, endSeen, hfail, downed, cnt, bad>>
+  /\ IsN("Route") /\ Step /\ UNCHANGED <<hstart, qfSeen, endSeen, hfail, downed, cnt, bad>>
   /\ LET n == Ev.node IN
      IF ~Ev.found
        THEN UNCHANGED <<vars, hq>>                       \* dropped: no router (late or one-way)
@@ -122,7 +125,7 @@ TRoute ==
                    /\ hq' = [hq EXCEPT ![n] = Tail(@)]
 
 TCallRecv ==
-  /\ Is("CallRecv") /\ Step /\ Same
+  /\ IsN("CallRecv") /\ Step /\ Same
   /\ LET n == Ev.node IN
      CASE sc.kind = "rpc" -> TakeRpc(n) /\ Head(wire[n]).err = Ev.err
        [] Ev.err -> TakeErr(n) /\ Len(errs') = Ev.nerr /\ Cardinality(DOMAIN replies') = Ev.nrep
@@ -168,7 +171,7 @@ TCallEnd ==
 TCtxEnd == Is("CtxEnd") /\ Step /\ Same /\ CtxEnd(Ev.cause)
 
 \* C07: the environment stops the server of a node
-TNodeDown == /\ Is("NodeDown") /\ Step /\ UNCHANGED <<vars, hq, hstart, qfSeen, endSeen, hfail, cnt, bad>>
+TNodeDown == /\ IsN("NodeDown") /\ Step /\ UNCHANGED <<vars, hq, hstart, qfSeen, endSeen, hfail, cnt, bad>>
              /\ downed' = downed \cup {Ev.node}
 
 \* C07: every error of the call names its node; a handler failure carries the
